@@ -112,7 +112,9 @@ func (t *Transpiler) transpileArithBinOps(b *parser.BinaryExpr, op influxql.Toke
 }
 
 func (t *Transpiler) comOpBuildNewFilter(scalar influxql.Expr, preField influxql.Expr, returnBool bool, stmt *influxql.SelectStatement) bool {
-	if _, ok := preField.(*influxql.BinaryExpr); ok {
+	// with the bool modifier the comparison must yield 0/1 for every element, also when the operand is itself a
+	// (bool) comparison: only a plain comparison is turned into a filter
+	if _, ok := preField.(*influxql.BinaryExpr); ok && !returnBool {
 		return true
 	}
 	if _, ok := scalar.(*influxql.Call); ok && !returnBool {
